@@ -284,6 +284,29 @@ Theorem C14_caller_memory_untouched :
 Proof. intros g hops hs. exact (caller_memory_untouched hsrc src C14_heap_source_is_model g hops hs). Qed.
 Print Assumptions C14_caller_memory_untouched.
 
+(* ... and an array handed out by to_xarray is a SNAPSHOT: it keeps its content across every further operation of the
+   container and every caller write to any other object; when the caller overwrites it, it holds what the caller
+   wrote and every other to_xarray result is untouched.  (hs = any state reachable by such a caller; r = the object
+   returned by the j-th read, a to_xarray read.) *)
+Theorem C14_xarray_result_is_a_snapshot :
+  forall g hops o hs hs' j r,
+    disciplined (hops ++ [o]) = true -> writes_result o = false ->
+    hexec hsrc src g (Some (hinit g)) hops = Some hs -> fst (hstep hsrc src g hs o) = Some hs' ->
+    nth_error (h_res hs) j = Some (RkXr, r) ->
+    nth_error (h_res hs') j = Some (RkXr, r) /\ deref hs' r = deref hs r /\ deref hs r <> None.
+Proof. exact (xarray_result_is_a_snapshot hsrc src C14_heap_source_is_model). Qed.
+Print Assumptions C14_xarray_result_is_a_snapshot.
+
+Theorem C14_xarray_result_written_by_caller :
+  forall g hops j' a hs j r,
+    disciplined (hops ++ [HWrite (HRes j') a]) = true ->
+    hexec hsrc src g (Some (hinit g)) hops = Some hs ->
+    nth_error (h_res hs) j = Some (RkXr, r) ->
+    exists hs', fst (hstep hsrc src g hs (HWrite (HRes j') a)) = Some hs' /\ h_res hs' = h_res hs /\
+      deref hs' r = if (j =? j')%nat then Some a else deref hs r.
+Proof. exact (xarray_result_written_by_caller hsrc src C14_heap_source_is_model). Qed.
+Print Assumptions C14_xarray_result_written_by_caller.
+
 Definition hops_alias : list hop :=
   [HNew [[1;0;2];[0;3;0]]; HAdd (HArg 0); HAdd (HArg 0); HRead RkXr; HWrite (HArg 0) [[0;0;0];[0;0;8]];
    HAdd (HArg 0); HWrite (HRes 0) [[9;9;9];[9;9;9]]; HRead RkArray; HNewDf [K 5 1 4]; HAddDf 0;
@@ -306,7 +329,12 @@ Example C14_heap_nonvacuous :
   hread_after adopting src g11 [HNew [[1]]; HAdd (HArg 0); HAdd (HArg 0); HAdd (HArg 0)] = OArr [[4]] /\
   hread_after hsrc src g11 [HNew [[1]]; HAdd (HArg 0); HAdd (HArg 0); HAdd (HArg 0)] = OArr [[3]] /\
   option_map h_args (hexec adopting src g11 (Some (hinit g11)) [HNew [[1]]; HAdd (HArg 0); HAdd (HArg 0)]) = Some [[[2]]] /\
-  disciplined [HRead RkArray; HWrite (HRes 0) [[5]]] = false.
+  disciplined [HRead RkArray; HWrite (HRes 0) [[5]]] = false /\
+  (* a to_xarray result survives additions, a reset and the caller's writes elsewhere; a view from .array does not *)
+  option_map (xr_view) (hexec hsrc src g11 (Some (hinit g11))
+     [HNew [[1]]; HAdd (HArg 0); HRead RkXr; HAdd (HArg 0); HReset; HWrite (HArg 0) [[9]]; HCl [K 2 (1#2) (1#2)]; HRead RkXr])
+    = Some [[[1]]; [[2]]] /\
+  writes_result (HWrite (HRes 0) [[5]]) = true /\ writes_result (HAdd (HArg 0)) = false.
 Proof.
   repeat match goal with |- _ /\ _ => split end; try (vm_compute; reflexivity); try exact std_hparams_ok.
   intros [Hn _]. apply Hn. reflexivity.
